@@ -1,7 +1,7 @@
 import SafeNet.Driver.Util
 import SafeNet.Model.Amount
 namespace SafeNet.Driver.Amount
-open SafeNet.Amount
+open SafeNet.Amount SafeNet.Gen.Amount
 
 def errName : PErr → String
   | .units => "units" | .remainder => "remainder" | .lossOfPrecision => "loss" | .excessive => "excessive"
@@ -27,6 +27,15 @@ def step (_ : Unit) (ws : List String) : Unit × String :=
     match a.toNat?, b.toNat? with
     | some x, some y => ((), match checkedSub x y with | some r => s!"some {r}" | none => "none")
     | _, _ => ((), "bad-op")
+  | "costsum" :: rest =>
+    -- a cost sum as the client computes it (`.sum::<Amount>()` / `+=`, or a checked fold)
+    match natList rest with
+    | some xs => ((), match costSum xs with | some r => s!"sum {r}" | none => "overflow")
+    | none => ((), "bad-op")
+  | ["showatto", n] =>
+    match n.toNat? with
+    | some k => ((), hex (printedCost .atto k))
+    | none => ((), "bad-op")
   | "clisum" :: split :: rest =>
     -- `clisum <k> a1 a2 …`: the first k events are consumed before the completion signal, the rest are drained
     match split.toNat?, natList rest with
